@@ -345,9 +345,60 @@ static std::string up(std::string s) { for (auto &c : s) c = toupper(c); return 
 static std::string hexs(const oct &o) { std::string r = xb(S(o)).substr(1); return r; }
 #define PF(key, what) propfail(key, std::string(what) + " packet=" + xb(S(pkt)))
 
+// decode side, field for field: PacketDecode on the packet, every context field the model knows as one token
+static std::string mpis_tok(std::initializer_list<gcry_mpi_t> l) { std::string r; for (auto m : l) { if (!r.empty()) r += ","; r += hexz(m); } return r; }
+static std::string pdec_tok(const oct &pkt) {
+	Dec d(pkt); const tmcg_openpgp_packet_ctx_t &c = d.ctx;
+	if (d.tag == 0) return "err";
+	if (d.tag >= 0xFA) return "unsup";
+	std::string t = std::to_string((int)d.tag) + "|";
+	auto B = [](const tmcg_openpgp_byte_t *p, size_t n) { return xb(std::string((const char*)p, n)); };
+	switch (d.tag) {
+	case 1: t += B(c.keyid, 8) + "|" + hx(c.pkalgo) + "|";
+		if (c.pkalgo == 1 || c.pkalgo == 2) t += mpis_tok({ c.me }); else if (c.pkalgo == 16) t += mpis_tok({ c.gk, c.myk }); else t += mpis_tok({ c.ecepk }) + "|" + B(c.rkw, c.rkwlen);
+		break;
+	case 2:
+		if (c.version == 3) t += "3|" + hx(c.type) + "|" + hx(c.sigcreationtime) + "|" + B(c.issuer, 8) + "|" + hx(c.pkalgo) + "|" + hx(c.hashalgo) + "|" + B(c.left, 2) + "|";
+		else t += hx(c.version) + "|" + hx(c.type) + "|" + hx(c.pkalgo) + "|" + hx(c.hashalgo) + "|" + B(c.hspd, c.hspdlen) + "|" + B(c.left, 2) + "|";
+		if (c.pkalgo == 1 || c.pkalgo == 3) t += mpis_tok({ c.md }); else t += mpis_tok({ c.r, c.s });
+		break;
+	case 3: { std::string s2k = hx(c.s2k_type) + ":" + hx(c.s2k_hashalgo); if (c.s2k_type != 0) s2k += ":" + B(c.s2k_salt, 8); if (c.s2k_type == 3) s2k += ":" + hx(c.s2k_count);
+		if (c.version == 4) t += "4|" + hx(c.skalgo) + "|" + s2k + "|" + B(c.encdata, c.encdatalen);
+		else t += "5|" + hx(c.skalgo) + "|" + hx(c.aeadalgo) + "|" + s2k + "|" + B(c.iv, PGP::AlgorithmIVLength(c.aeadalgo)) + "|" + B(c.encdata, c.encdatalen);
+		break; }
+	case 6: case 14: t += hx(c.version) + "|" + hx(c.keycreationtime) + "|" + hx(c.pkalgo) + "|";
+		if (c.pkalgo <= 3) t += mpis_tok({ c.n, c.e }); else if (c.pkalgo == 16) t += mpis_tok({ c.p, c.g, c.y }); else if (c.pkalgo == 17) t += mpis_tok({ c.p, c.q, c.g, c.y });
+		else if (c.pkalgo == 18) t += B(c.curveoid, c.curveoidlen) + ":" + hexz(c.ecpk) + ":" + hx(c.kdf_hashalgo) + ":" + hx(c.kdf_skalgo);
+		else t += B(c.curveoid, c.curveoidlen) + ":" + hexz(c.ecpk);
+		break;
+	case 8: t += hx(c.compalgo) + "|" + B(c.compdata, c.compdatalen); break;
+	case 9: t += B(c.encdata, c.encdatalen); break;
+	case 11: t += hx(c.dataformat) + "|" + B(c.datafilename, c.datafilenamelen) + "|" + hx(c.datatime) + "|" + B(c.data, c.datalen); break;
+	case 13: t += B(c.uiddata, c.uiddatalen); break;
+	case 18: t += B(c.encdata, c.encdatalen); break;
+	case 19: t += B(c.mdc_hash, 20); break;
+	case 20: t += hx(c.skalgo) + "|" + hx(c.aeadalgo) + "|" + hx(c.chunksize) + "|" + B(c.iv, PGP::AlgorithmIVLength(c.aeadalgo)) + "|" + B(c.encdata, c.encdatalen); break;
+	default: return "notmodelled";
+	}
+	return t;
+}
+static oct reframe(unsigned tag, const oct &body) { oct p; PGP::PacketTagEncode(tag, p); PGP::PacketLengthEncode(body.size(), p); p.insert(p.end(), body.begin(), body.end()); return p; }
+static void pdec_case(const oct &pkt) {
+	std::string tk = pdec_tok(pkt);
+	Rec("pdec").b(S(pkt)).t(tk); g_cases++;
+	// encode side, octet for octet: the model re-encodes the decoded fields (packet_of) and must obtain this packet
+	if (tk != "err" && tk != "unsup" && tk != "notmodelled") Rec("penc").b(S(pkt)).t("same");
+	// the same packet with its body cut at a generated position (every decoder's "too short" tests)
+	oct body; tmcg_openpgp_byte_t tag = PGP::PacketBodyExtract(pkt, 0, body);
+	if (tag && !body.empty()) for (int k = 0; k < 2; k++) {
+		size_t cut = (k == 0 && body.size() > 24) ? gen().below(24) : gen().below(body.size());
+		oct b2(body.begin(), body.begin() + cut); oct p2 = reframe(tag, b2);
+		Rec("pdec").b(S(p2)).t(pdec_tok(p2)); g_cases++;
+	}
+}
 static void pk_uid(const std::string &uid, bool gpg) {
 	oct pkt; PGP::PacketUidEncode(uid, pkt);
-	Rec("pk_uid").b(uid).b(S(pkt)); bodyext_case(pkt);
+	Rec("pk_uid").b(uid).b(S(pkt)); bodyext_case(pkt); pdec_case(pkt);
 	oct trail = rnd_oct(gen().below(3));
 	Dec d(pkt, trail);
 	if (d.tag != 13 || d.ctx.uiddatalen != uid.size() || memcmp(d.ctx.uiddata, uid.data(), uid.size()) || d.rest != trail || d.cur != pkt)
@@ -362,7 +413,7 @@ static void pk_lit(const oct &data, bool gpg) {
 	oct pkt; PGP::PacketLitEncode(data, pkt);
 	size_t hl = 1 + (1 + 1 + 4 + data.size() < 192 ? 1 : (1 + 1 + 4 + data.size() < 8384 ? 2 : 5));
 	uint32_t tm = 0; if (pkt.size() >= hl + 6) tm = (pkt[hl + 2] << 24) | (pkt[hl + 3] << 16) | (pkt[hl + 4] << 8) | pkt[hl + 5];
-	Rec("pk_lit").u(tm).b(S(data)).b(S(pkt)); bodyext_case(pkt);
+	Rec("pk_lit").u(tm).b(S(data)).b(S(pkt)); bodyext_case(pkt); pdec_case(pkt);
 	Dec d(pkt);
 	if (d.tag != 11 || d.ctx.dataformat != 0x62 || d.ctx.datafilenamelen != 0 || d.ctx.datatime != tm || d.ctx.datalen != data.size() ||
 	    (data.size() && memcmp(d.ctx.data, data.data(), data.size())) || !d.rest.empty())
@@ -373,15 +424,15 @@ static void pk_lit(const oct &data, bool gpg) {
 	g_cases++;
 }
 static void pk_sed_seipd_mdc_aead(const oct &data) {
-	{ oct pkt; PGP::PacketSedEncode(data, pkt); Rec("pk_sed").b(S(data)).b(S(pkt)); bodyext_case(pkt);
+	{ oct pkt; PGP::PacketSedEncode(data, pkt); Rec("pk_sed").b(S(data)).b(S(pkt)); bodyext_case(pkt); pdec_case(pkt);
 	  Dec d(pkt);
 	  if (data.empty() ? false : (d.tag != 9 || d.ctx.encdatalen != data.size() || memcmp(d.ctx.encdata, data.data(), data.size()) || !d.rest.empty()))
 		PF("packet-roundtrip-sed", "symmetrically encrypted data packet does not decode to the encoded fields"); }
-	{ oct pkt; PGP::PacketSeipdEncode(data, pkt); Rec("pk_seipd").b(S(data)).b(S(pkt)); bodyext_case(pkt);
+	{ oct pkt; PGP::PacketSeipdEncode(data, pkt); Rec("pk_seipd").b(S(data)).b(S(pkt)); bodyext_case(pkt); pdec_case(pkt);
 	  Dec d(pkt);
 	  if (data.empty() ? false : (d.tag != 18 || d.ctx.version != 1 || d.ctx.encdatalen != data.size() || memcmp(d.ctx.encdata, data.data(), data.size()) || !d.rest.empty()))
 		PF("packet-roundtrip-seipd", "SEIPD packet does not decode to the encoded fields"); }
-	{ oct h = rnd_oct(20); oct pkt; PGP::PacketMdcEncode(h, pkt); Rec("pk_mdc").b(S(h)).b(S(pkt)); bodyext_case(pkt);
+	{ oct h = rnd_oct(20); oct pkt; PGP::PacketMdcEncode(h, pkt); Rec("pk_mdc").b(S(h)).b(S(pkt)); bodyext_case(pkt); pdec_case(pkt);
 	  Dec d(pkt);
 	  if (d.tag != 19 || memcmp(d.ctx.mdc_hash, h.data(), 20) || !d.rest.empty())
 		PF("packet-roundtrip-mdc", "MDC packet does not decode to the encoded fields"); }
@@ -390,7 +441,7 @@ static void pk_sed_seipd_mdc_aead(const oct &data) {
 		int ae = AE[gen().below(2)]; unsigned cs = gen().below(57); int sk = 7 + gen().below(3);
 		size_t ivl = (ae == TMCG_OPENPGP_AEADALGO_EAX) ? 16 : 15; oct iv = rnd_oct(ivl);
 		oct pkt; PGP::PacketAeadEncode((tmcg_openpgp_skalgo_t)sk, (tmcg_openpgp_aeadalgo_t)ae, cs, iv, data, pkt);
-		Rec("pk_aead").u(sk).u(ae).u(cs).b(S(iv)).b(S(data)).b(S(pkt)); bodyext_case(pkt);
+		Rec("pk_aead").u(sk).u(ae).u(cs).b(S(iv)).b(S(data)).b(S(pkt)); bodyext_case(pkt); pdec_case(pkt);
 		if (!data.empty()) {
 			Dec d(pkt);
 			if (d.tag != 20 || d.ctx.version != 1 || d.ctx.skalgo != sk || d.ctx.aeadalgo != ae || d.ctx.chunksize != cs || memcmp(d.ctx.iv, iv.data(), ivl) ||
@@ -404,7 +455,7 @@ static void pk_pkesk(bool gpg) {
 	oct keyid = rnd_oct(8);
 	{ gcry_mpi_t me = mpi_bits(40 + gen().below(2100));
 	  oct pkt; PGP::PacketPkeskEncode(keyid, me, pkt);
-	  Rec("pk_pkesk_rsa").b(S(keyid)).t(hexz(me)).b(S(pkt)); bodyext_case(pkt);
+	  Rec("pk_pkesk_rsa").b(S(keyid)).t(hexz(me)).b(S(pkt)); bodyext_case(pkt); pdec_case(pkt);
 	  Dec d(pkt);
 	  if (d.tag != 1 || d.ctx.version != 3 || memcmp(d.ctx.keyid, keyid.data(), 8) || d.ctx.pkalgo != TMCG_OPENPGP_PKALGO_RSA || !mpi_eq(d.ctx.me, me) || !d.rest.empty())
 		PF("packet-roundtrip-pkesk-rsa", "PKESK (RSA) packet does not decode to the encoded fields");
@@ -412,7 +463,7 @@ static void pk_pkesk(bool gpg) {
 	  gcry_mpi_release(me); }
 	{ gcry_mpi_t gk = mpi_bits(40 + gen().below(2100)), myk = mpi_bits(40 + gen().below(2100));
 	  oct pkt; PGP::PacketPkeskEncode(keyid, gk, myk, pkt);
-	  Rec("pk_pkesk_elg").b(S(keyid)).t(hexz(gk)).t(hexz(myk)).b(S(pkt)); bodyext_case(pkt);
+	  Rec("pk_pkesk_elg").b(S(keyid)).t(hexz(gk)).t(hexz(myk)).b(S(pkt)); bodyext_case(pkt); pdec_case(pkt);
 	  Dec d(pkt);
 	  if (d.tag != 1 || d.ctx.version != 3 || memcmp(d.ctx.keyid, keyid.data(), 8) || d.ctx.pkalgo != TMCG_OPENPGP_PKALGO_ELGAMAL || !mpi_eq(d.ctx.gk, gk) || !mpi_eq(d.ctx.myk, myk) || !d.rest.empty())
 		PF("packet-roundtrip-pkesk-elgamal", "PKESK (ElGamal) packet does not decode to the encoded fields");
@@ -420,7 +471,7 @@ static void pk_pkesk(bool gpg) {
 	  gcry_mpi_release(gk); gcry_mpi_release(myk); }
 	{ gcry_mpi_t epk = mpi_bits(263); size_t rl = 24 + 8 * gen().below(5); /* AES key wrap output: 24..56 octets */ oct rk = rnd_oct(rl); tmcg_openpgp_byte_t rkw[256]; memset(rkw, 0, sizeof rkw); memcpy(rkw, rk.data(), rl);
 	  oct pkt; PGP::PacketPkeskEncode(keyid, epk, rl, rkw, pkt);
-	  Rec("pk_pkesk_ecdh").b(S(keyid)).t(hexz(epk)).b(S(rk)).b(S(pkt)); bodyext_case(pkt);
+	  Rec("pk_pkesk_ecdh").b(S(keyid)).t(hexz(epk)).b(S(rk)).b(S(pkt)); bodyext_case(pkt); pdec_case(pkt);
 	  Dec d(pkt);
 	  if (d.tag != 1 || d.ctx.version != 3 || memcmp(d.ctx.keyid, keyid.data(), 8) || d.ctx.pkalgo != TMCG_OPENPGP_PKALGO_ECDH || !mpi_eq(d.ctx.ecepk, epk) || d.ctx.rkwlen != rl || memcmp(d.ctx.rkw, rkw, rl) || !d.rest.empty())
 		PF("packet-roundtrip-pkesk-ecdh", "PKESK (ECDH) packet does not decode to the encoded fields");
@@ -458,7 +509,7 @@ static void pk_sig(bool gpg) {
 	oct pkt;
 	if (pka == TMCG_OPENPGP_PKALGO_RSA) { PGP::PacketSigEncode(hashed, left, r, pkt); Rec("pk_sig").b(S(hashed)).b(S(left)).t(hexz(r)).b(S(pkt)); }
 	else { PGP::PacketSigEncode(hashed, left, r, s, pkt); Rec("pk_sig").b(S(hashed)).b(S(left)).t(hexz(r) + "," + hexz(s)).b(S(pkt)); }
-	bodyext_case(pkt);
+	bodyext_case(pkt); pdec_case(pkt);
 	Dec d(pkt);
 	bool ok = d.tag == 2 && d.ctx.version == hashed[0] && d.ctx.type == type && d.ctx.pkalgo == pka && d.ctx.hashalgo == ha &&
 		d.ctx.sigcreationtime == (uint32_t)sigtime && d.ctx.left[0] == left[0] && d.ctx.left[1] == left[1] && d.rest.empty() &&
@@ -492,7 +543,7 @@ static void pk_pub(bool gpg) {
 		if (sub && v5) PGP::PacketSubEncodeV5(kt, (tmcg_openpgp_pkalgo_t)algo, p, q, g, y, pkt);
 		if (!v5) { Rec("pk_pub").d(sub ? 14 : 6).u(kt).u(algo).t(hexz(p)).t(hexz(q)).t(hexz(g)).t(hexz(y)).t(pkt.empty() ? std::string("none") : xb(S(pkt))); }
 		if (pkt.empty()) { if (algo != 21) propfail("packet-pub-empty", "public key encoder emitted nothing for algo " + std::to_string(algo)); continue; }
-		bodyext_case(pkt);
+		bodyext_case(pkt); pdec_case(pkt);
 		Dec d(pkt);
 		bool ok = d.tag == (sub ? 14 : 6) && d.ctx.version == (v5 ? 5 : 4) && d.ctx.keycreationtime == (uint32_t)kt && d.ctx.pkalgo == algo && d.rest.empty();
 		if (ok && algo <= 3) ok = mpi_eq(d.ctx.n, p) && mpi_eq(d.ctx.e, q);
@@ -525,7 +576,7 @@ static void pk_pub(bool gpg) {
 			if (sub && !v5) PGP::PacketSubEncode(kt, (tmcg_openpgp_pkalgo_t)ealg, oid[0], oid + 1, pt, (tmcg_openpgp_hashalgo_t)kh, (tmcg_openpgp_skalgo_t)ks, pkt);
 			if (sub && v5) PGP::PacketSubEncodeV5(kt, (tmcg_openpgp_pkalgo_t)ealg, oid[0], oid + 1, pt, (tmcg_openpgp_hashalgo_t)kh, (tmcg_openpgp_skalgo_t)ks, pkt);
 			if (pkt.empty()) { propfail("packet-pub-empty", "EC public key encoder emitted nothing for " + name); continue; }
-			bodyext_case(pkt);
+			bodyext_case(pkt); pdec_case(pkt);
 			Dec d(pkt);
 			bool ok = d.tag == (sub ? 14 : 6) && d.ctx.version == (v5 ? 5 : 4) && d.ctx.keycreationtime == (uint32_t)kt && d.ctx.pkalgo == ealg && d.rest.empty() &&
 				d.ctx.curveoidlen == oid[0] && !memcmp(d.ctx.curveoid, oid + 1, oid[0]) && mpi_eq(d.ctx.ecpk, pt);
@@ -630,6 +681,8 @@ int main(int argc, char **argv) {
 			Rec("armdec").b(t).t(ty == 0 ? std::string("0") : std::to_string((int)ty) + ":" + xb(S(b))); }
 	}
 	if (on("len")) {
+		// designed regression set: every boundary of RFC 4880 4.2.2 (191/192, 8383/8384), 2^16 and 2^32-1 is in BOTH tiers
+		// (e.g. the two-octet bound `len < 8384` -> `len <= 8384` would emit 8384 as E0 00, a partial length header)
 		static const size_t B[] = { 0, 1, 2, 100, 189, 190, 191, 192, 193, 194, 255, 256, 257, 447, 448, 449, 8381, 8382, 8383, 8384, 8385, 8386, 16383, 16384, 65534, 65535, 65536, 65537,
 			(1UL << 24) - 1, 1UL << 24, (1UL << 31) - 1, 1UL << 31, (1UL << 32) - 2, (1UL << 32) - 1, 1UL << 32, (1UL << 32) + 191, (1UL << 40) + 8383 };
 		for (size_t i = 0; i < sizeof(B) / sizeof(B[0]); i++) lenenc_case(B[i]);
@@ -733,12 +786,36 @@ int main(int argc, char **argv) {
 		static const size_t DL[] = { 0, 1, 2, 184, 185, 186, 187, 190, 191, 192, 193, 8376, 8377, 8378, 8379, 8382, 8383, 8384, 8385, 65536 };
 		for (size_t i = 0; i < 20; i++) { oct d = rnd_oct(DL[i]); pk_lit(d, true); pk_sed_seipd_mdc_aead(d); pk_uid(S(rnd_oct(DL[i])), false); }
 		for (int k = 0; k < (T ? 200 : 30); k++) { oct d = rnd_oct(gen().below(400)); pk_lit(d, k < 5); pk_sed_seipd_mdc_aead(d); }
-		pk_uid("Alice Example <alice@example.org>", true); pk_uid("a", true); pk_uid(std::string(191, 'u'), true); pk_uid(std::string(192, 'v'), true); pk_uid(std::string(2000, 'w'), true); pk_uid(std::string(8384, 'w'), false);   // gpg refuses user IDs above 2048 octets (its own limit)
+		pk_uid("Alice Example <alice@example.org>", true); pk_uid("a", true); pk_uid(std::string(191, 'u'), true); pk_uid(std::string(192, 'v'), true); pk_uid(std::string(2000, 'w'), true); pk_uid(std::string(8383, 'w'), false); pk_uid(std::string(8384, 'w'), false); pk_uid(std::string(65535, 'x'), false); pk_uid(std::string(65536, 'x'), false);   // gpg refuses user IDs above 2048 octets (its own limit)
 		for (int k = 0; k < (T ? 300 : 50); k++) pk_subpkt();
 		for (int k = 0; k < (T ? 120 : 24); k++) pk_pkesk(k < 6);
 		for (int k = 0; k < (T ? 400 : 70); k++) pk_sig(k < 14);
 		for (int k = 0; k < (T ? 60 : 10); k++) pk_pub(k < 6);
 		for (int k = 0; k < (T ? 20 : 4); k++) pk_sec();
+		// packets the library reads but does not write: built here from the RFC field lists
+		for (int k = 0; k < (T ? 300 : 60); k++) {
+			oct b; unsigned st = gen().below(4) == 3 ? 2 + gen().below(3) : (gen().below(3) == 2 ? 3 : gen().below(2));
+			if (gen().coin()) { b.push_back(4); b.push_back(7 + gen().below(3)); b.push_back(st); b.push_back(8 + gen().below(3)); }
+			else { b.push_back(5); b.push_back(7 + gen().below(3)); b.push_back(gen().below(4)); b.push_back(st); b.push_back(8 + gen().below(3)); }
+			oct rest = rnd_oct(gen().below(4) ? 8 + gen().below(60) : gen().below(30)); b.insert(b.end(), rest.begin(), rest.end());
+			if (gen().below(12) == 0) b[0] = 3 + gen().below(4);
+			pdec_case(reframe(3, b));
+		}
+		for (int k = 0; k < (T ? 60 : 15); k++) { oct b; b.push_back(gen().below(4)); oct d = rnd_oct(gen().below(5) ? 1 + gen().below(300) : 0); b.insert(b.end(), d.begin(), d.end()); pdec_case(reframe(8, b)); }
+		for (int k = 0; k < (T ? 120 : 30); k++) {   // version 3 signatures
+			static const int PKA[] = { 1, 3, 17, 19, 22, 16 };
+			int pka = PKA[gen().below(6)]; oct b; b.push_back(3); b.push_back(gen().below(10) ? 5 : 4); b.push_back(gen().below(2)); oct tm = rnd_oct(4), iss = rnd_oct(8), left = rnd_oct(2);
+			b.insert(b.end(), tm.begin(), tm.end()); b.insert(b.end(), iss.begin(), iss.end()); b.push_back(pka); b.push_back(8); b.insert(b.end(), left.begin(), left.end());
+			gcry_mpi_t r = mpi_bits(60 + gen().below(900)), s2 = mpi_bits(60 + gen().below(200)); PGP::PacketMPIEncode(r, b); if (pka != 1 && pka != 3) PGP::PacketMPIEncode(s2, b);
+			gcry_mpi_release(r); gcry_mpi_release(s2);
+			pdec_case(reframe(2, b));
+		}
+		for (int k = 0; k < (T ? 60 : 15); k++) {   // literal data with file name and other formats
+			oct b; b.push_back(gen().coin() ? 0x74 : 0x75); std::string fn = S(rnd_oct(gen().below(4) ? gen().below(20) : 255)); b.push_back(fn.size()); b.insert(b.end(), fn.begin(), fn.end());
+			oct tm = rnd_oct(4), d = rnd_oct(gen().below(6) ? 1 + gen().below(100) : 0); b.insert(b.end(), tm.begin(), tm.end()); b.insert(b.end(), d.begin(), d.end());
+			pdec_case(reframe(11, b));
+		}
+
 	}
 	printf("CASES %llu\n", (unsigned long long)g_cases);
 	return 0;
